@@ -19,7 +19,7 @@ RULE = (
     "(positions biased into the refreshed log window, repeats and overlapping words), the "
     "simulator's own 1-byte change, silent mutation of the simulator block, log-range refresh "
     "(not awaited: later STATPs arrive while its segments are in flight), idle gaps; async client "
-    "(optionally jittered) and threaded client. Non-trivial = >=2 STATPs touching a common byte, or "
+    "(optionally jittered) and threaded client (there also: updates arriving while the handshake is still running). Non-trivial = >=2 STATPs touching a common byte, or "
     "STATP -> refresh of that byte -> another STATP (incl. an empty one); distinct by canonical case."
 )
 ASSUMPTIONS = [
@@ -61,9 +61,12 @@ def strategy(tier):
         lambda t: [["statp", [[t[0], t[1]]]], ["gap", 0.3], ["simpoke", t[0], t[2]], ["refresh"], ["gap", t[3]], ["statp", t[4]]])
     item = st.one_of(ops.map(lambda o: [o]), ops.map(lambda o: [o]), ops.map(lambda o: [o]), macro)
     jitter = st.one_of(st.just([]), st.lists(st.sampled_from([0.0, 0.0, 0.01, 0.02]), min_size=1, max_size=5))
-    return st.builds(lambda k, seed, o, j: {"k": k, "seed": seed, "ops": [x for grp in o for x in grp][:14], "jitter": j if k == "async" else []},
+    # partial updates that arrive while the connection handshake is still running (at the given engine iteration / virtual time)
+    early = st.one_of(st.just([]), st.just([]), st.lists(st.tuples(st.integers(1, 70), st.lists(rec, min_size=1, max_size=2)).map(list), min_size=1, max_size=2))
+    return st.builds(lambda k, seed, o, j, e: dict({"k": k, "seed": seed, "ops": [x for grp in o for x in grp][:14], "jitter": j if k == "async" else []},
+                                                  **({"early": e} if e and k == "threaded" else {})),
                      st.sampled_from(["async", "async", "threaded"]), st.integers(0, 2**31),
-                     st.lists(item, min_size=1, max_size=10), jitter)
+                     st.lists(item, min_size=1, max_size=10), jitter, early)
 
 
 def _classify(ops):
@@ -230,14 +233,38 @@ def _run_threaded(res, case):
     sim = vworld.make_simulator()
     eng = stepped.Engine()
     with eng.patched():
-        spa, ok = stepped.connect_threaded_spa(eng, sim)
+        early = sorted((int(at), recs) for at, recs in case.get("early", []))
+        nstatp = 0
+        if early:
+            # unsolicited partial updates while the handshake is in progress: the initial full block arrives after them and
+            # overwrites whatever they changed, so the arrival-order fold after the handshake is simply the spa's block
+            spa = stepped.make_threaded_spa(eng, sim)
+            spa.start_connect()
+            pending = list(early)
+
+            def feed(e):
+                nonlocal nstatp
+                while pending and e.iterations >= pending[0][0] and not spa._is_connected:
+                    _, recs = pending.pop(0)
+                    changes = [(p, bytes.fromhex(h)) for p, h in recs]
+                    if any(p + len(d) > BLOCK or len(d) != 2 for p, d in changes):
+                        raise InvalidCase(recs)
+                    e.deliver(R.frame(stepped.SPA_ID, stepped.CLIENT_ID, R.partial_update(changes)), stepped.SPA_ADDR)
+                    nstatp += 1
+            eng.on_iteration = feed
+            ok = stepped.run_until(eng, lambda: spa._is_connected and not eng.inbox and not spa._send_handlers, 40000)
+            eng.on_iteration = None
+        else:
+            spa, ok = stepped.connect_threaded_spa(eng, sim)
         if not ok:
             raise HarnessError("threaded handshake failed fault-free")
+        if spa.struct.status_block != sim.structure.status_block:
+            res.fail("C05|block-differs|threaded-handshake", "client block differs from the spa's right after the handshake (partial updates arrived during it)")
+            return
         start, length = spa.new_log_class.begin, spa.new_log_class.end
         lo, hi = _installed_range(start, length)
         ref = _Ref(spa.struct.status_block)
-        s0 = len(eng.sent)
-        nstatp = 0
+        s0 = 0 if early else len(eng.sent)
         q = stepped.quiescent(eng, spa)
         sim._clients = [(stepped.CLIENT_ADDR[0], stepped.CLIENT_ADDR[1], stepped.CLIENT_ID, stepped.SPA_ID)]
         for op in case["ops"]:
@@ -307,6 +334,8 @@ def run_case(case) -> Result:
         _run_threaded(res, case)
     else:
         raise InvalidCase(case)
-    res.nontrivial = _classify(case["ops"])
+    res.nontrivial = _classify(case["ops"]) or bool(case.get("early"))
     res.label(k)
+    if case.get("early"):
+        res.label("updates-during-handshake")
     return res
